@@ -640,7 +640,7 @@ class Gen:
         if tstack:
             return self.s_print(depth)
         f = self.r.choice([feat_scope.s_counter, feat_scope.s_closure_vec, feat_scope.s_shared, feat_scope.s_levels,
-                           feat_scope.s_exitpaths, feat_scope.s_shadow, feat_scope.s_exitmatrix, feat_scope.s_exitmatrix, feat_scope.s_fiber_cells])
+                           feat_scope.s_exitpaths, feat_scope.s_shadow, feat_scope.s_exitmatrix, feat_scope.s_exitmatrix, feat_scope.s_fiber_cells, feat_scope.s_selfname, feat_scope.s_midshadow])
         return f(self, depth)
 
     def s_cls(self, depth):
